@@ -65,7 +65,10 @@ def run(tier: str = "quick", seed: int = 0) -> dict:
         descs = descs[::2]
     # content-identical twins at different positions, deeper chains
     descs += [("T", (("U", ("U", ("L", 0), None), None), ("U", ("U", ("L", 0), None), None))), ("U", ("U", ("U", ("U", ("L", 1), None), None), ("L", 1)), ("L", 1)),
-              ("T", tuple(("L", 0) for _ in range(12)))]
+              ("T", tuple(("L", 0) for _ in range(12))),
+              # same-id twins inside one tree (a detached subtree and an equal one built afterwards), and a detached tree as a whole
+              ("T", (("D", ("U", ("L", 0), None)), ("U", ("L", 0), None), ("D", ("L", 0)), ("L", 0))),
+              ("D", ("U", ("U", ("L", 2), None), ("L", 2)))]
     for desc in descs:
         root = M.build(desc)
         nodes = M.ref_nodes(root)
@@ -151,5 +154,5 @@ def run(tier: str = "quick", seed: int = 0) -> dict:
             samples.append({"tree": str(desc), "nodes": len(nodes)})
         M.detach_all(root)
     return {"evaluations": evals, "distinct_nontrivial": len(distinct),
-            "rule": f"model trees <= {maxn} nodes (every 2nd in quick tier) plus twins-at-different-positions, a depth-4 chain and a 12-tuple; every node as argument of every unary query, every pair for is_ancestor / relative depth (followed by an absolute depth query), registered foreign duplicates of members; oracle = independent parent table from a recursive walk; distinct = tree",
+            "rule": f"model trees <= {maxn} nodes (every 2nd in quick tier) plus twins-at-different-positions, same-id twins (detached + re-created) inside one tree, a depth-4 chain and a 12-tuple; every node as argument of every unary query, every pair for is_ancestor / relative depth (followed by an absolute depth query), registered foreign duplicates of members; oracle = independent parent table from a recursive walk; distinct = tree",
             "samples": samples, "failures": failures, "bound": f"trees <= {maxn} nodes"}
